@@ -3,6 +3,7 @@ import re
 
 from ..common import Report, log
 from ..corpus import load, load_repo_tests
+from ..crossgen import load_cross
 from ..wrules import check_fnmod_delegation
 
 RULE_TEXT = ("R-DELEG over every fn/mod expansion of the witness corpus: the type-checked HIR body of each "
@@ -74,6 +75,7 @@ def run(tier):
     configs = ["plain", "unimock_test"] if tier == "quick" else ["plain", "test", "unimock", "unimock_test"]
     programs = 0
     loaded = [(cfg, load(rep, "pos", cfg)) for cfg in configs]
+    loaded += [(cfg, load_cross(rep, cfg, tier)) for cfg in configs]
     if tier == "thorough":
         loaded.append(("unimock_test", load_repo_tests(rep)))
     for cfg, ld in loaded:
